@@ -39,7 +39,7 @@ Proof.
   destruct (next_ev w) as [[k amt] rest].
   destruct (N.eqb k 1); [reflexivity|]. destruct (N.eqb k 2); [reflexivity|]. destruct (N.eqb k 3); [reflexivity|].
   cbn [fst]. unfold broker_feed. destruct (N.eqb (w_broker _) 0); [reflexivity|].
-  destruct (broker_split _ _ _) as [r rest']. destruct r; reflexivity.
+  destruct (broker_split _ _ _ _) as [r rest']. destruct r; reflexivity.
 Qed.
 Lemma io_flush_live : forall w, w_live (fst (io_flush w)) = w_live w.
 Proof. intros. unfold io_flush. destruct (next_ev w) as [[k amt] rest]. destruct (N.eqb k 1); [reflexivity|]. destruct (N.eqb k 3); reflexivity. Qed.
